@@ -65,6 +65,20 @@ fn path_of(tcx: TyCtxt<'_>, did: DefId) -> String {
     }
 }
 
+/// viewpoint-independent identity of a definition (re-exports do not change it)
+fn dp_of(tcx: TyCtxt<'_>, did: DefId) -> String {
+    format!(
+        "{}{}",
+        tcx.crate_name(did.krate),
+        tcx.def_path(did).to_string_no_crate_verbose()
+    )
+}
+
+fn wanted_crate(name: &str) -> bool {
+    let crates = std::env::var("PGFACTS_CRATES").unwrap_or_else(|_| "proguard,watto,leb128".into());
+    crates.split(',').any(|w| w == name)
+}
+
 fn ty_str(t: Ty<'_>) -> String {
     format!("{}", t)
 }
@@ -98,12 +112,34 @@ impl<'a, 'tcx> Cx<'a, 'tcx> {
             let tcx = self.tcx;
             let mut o = J::obj()
                 .set("path", J::s(path_of(tcx, did)))
+                .set("dp", J::s(dp_of(tcx, did)))
                 .set("krate", J::s(krate_of(tcx, did)))
                 .set("full", J::s(tcx.def_path_str_with_args(did, args)))
                 .set(
                     "targs",
                     J::Arr(args.iter().map(|a| J::s(format!("{}", a))).collect()),
                 );
+            // local-crate-family ADTs mentioned in the callee's generic arguments: foreign generic
+            // code may call their trait impls (Iterator::next, Display::fmt, ...)
+            let mut mentions: Vec<String> = Vec::new();
+            for a in args.iter() {
+                for inner in a.walk() {
+                    if let Some(t) = inner.as_type() {
+                        if let ty::Adt(def, _) = t.kind() {
+                            let cn = tcx.crate_name(def.did().krate).to_string();
+                            if wanted_crate(&cn) {
+                                let d = dp_of(tcx, def.did());
+                                if !mentions.contains(&d) {
+                                    mentions.push(d);
+                                }
+                            }
+                        }
+                    }
+                }
+            }
+            if !mentions.is_empty() {
+                o.put("mentions", J::Arr(mentions.into_iter().map(J::s).collect()));
+            }
             // trait method? try to resolve to the impl
             if let Some(tr) = tcx.trait_of_assoc(did) {
                 o.put("trait", J::s(path_of(tcx, tr)));
@@ -116,6 +152,7 @@ impl<'a, 'tcx> Cx<'a, 'tcx> {
                     if let Ok(Some(inst)) = ty::Instance::try_resolve(tcx, env, did, args) {
                         let rd = inst.def_id();
                         o.put("resolved", J::s(path_of(tcx, rd)));
+                        o.put("resolved_dp", J::s(dp_of(tcx, rd)));
                         o.put("resolved_krate", J::s(krate_of(tcx, rd)));
                     }
                 }
@@ -448,6 +485,7 @@ impl<'a, 'tcx> Cx<'a, 'tcx> {
                 let up: Vec<J> = c.upvars.iter().map(|x| self.expr(*x)).collect();
                 self.node("Closure", e)
                     .set("def", J::s(path_of(tcx, c.closure_id.to_def_id())))
+                    .set("def_dp", J::s(dp_of(tcx, c.closure_id.to_def_id())))
                     .set("upvars", J::Arr(up))
             }
             ExprKind::Literal { lit, neg } => {
@@ -688,6 +726,7 @@ fn dump_thir<'tcx>(tcx: TyCtxt<'tcx>, cb: &mut Cb) {
         let root_j = cx.expr(root);
         let mut o = J::obj()
             .set("path", J::s(path_of(tcx, did)))
+            .set("dp", J::s(dp_of(tcx, did)))
             .set("kind", J::s(format!("{:?}", kind)))
             .set("krate", J::s(krate_of(tcx, did)))
             .set("sp", J::s(span_str(tcx, tcx.def_span(did))))
@@ -711,6 +750,9 @@ fn dump_thir<'tcx>(tcx: TyCtxt<'tcx>, cb: &mut Cb) {
             if let Some(imp) = tcx.impl_of_assoc(did) {
                 let self_ty = tcx.type_of(imp).instantiate_identity().skip_norm_wip();
                 o.put("impl_self", J::s(ty_str(self_ty)));
+                if let ty::Adt(def, _) = self_ty.kind() {
+                    o.put("impl_self_dp", J::s(dp_of(tcx, def.did())));
+                }
                 if let Some(tr) = tcx.impl_opt_trait_ref(imp) {
                     let tr = tr.instantiate_identity().skip_norm_wip();
                     o.put("impl_trait", J::s(path_of(tcx, tr.def_id)));
